@@ -229,6 +229,12 @@ def es_fixture_crosscheck(ctx):
     ctx.mc("MC_ES", env={"VERIF_FIXTURES": os.path.join(vcheck.VERIF, "fixtures")}, export=False)
 
 
+def strnum(ctx):
+    """11k strings through the implementation's string->number conversions (helpers and rules)."""
+    cases = ctx.mc("MC_StrNum", env={"VERIF_FAMILY": ctx.pid, "VERIF_FIXTURES": os.path.join(vcheck.VERIF, "fixtures")}, tag="MC_StrNum")
+    ctx.replay(cases, source="strnum")
+
+
 def plan_rel(ctx):
     pid = ctx.pid
     what = {"C07": "== and != (119-value corpus V7, all 14161 ordered pairs)", "C08": "=== and !== (119-value corpus V7, all ordered pairs; same-variable container case)",
@@ -238,6 +244,8 @@ def plan_rel(ctx):
     es_fixture_crosscheck(ctx)
     cases = ctx.mc("MC_Rel", env={"VERIF_FAMILY": pid}, tag="MC_Rel_" + pid)
     ctx.replay(cases)
+    if pid in ("C07", "C09"):
+        strnum(ctx)
     ctx.exhaustive = True
 
 
@@ -248,6 +256,7 @@ def plan_C10(ctx):
     es_fixture_crosscheck(ctx)
     cases = ctx.mc("MC_C10")
     ctx.replay(cases)
+    strnum(ctx)
     ctx.exhaustive = True
 
 
@@ -330,7 +339,70 @@ def plan_C04(ctx):
     ctx.exhaustive = True
 
 
+def plan_C17(ctx):
+    ctx.rule = ("TLC explores every interleaving (one step per call begin / log line / call end) of 2 threads x 9 programs each (81 assignments) and 3 threads x 4 programs (64) "
+                "over a shared pool of 8 rules x 3 data: history independence, inputs untouched, stdout = interleaving of whole lines in per-thread order, termination; "
+                "each program assignment is executed on real threads over shared inputs (%d staggered concurrent rounds + a sequential and a reversed pass), every call's "
+                "outcome compared with the isolated specification outcome, inputs snapshotted before/after, stdout lines counted and parsed, per-thread hook-event streams "
+                "validated by TLC against the machine" % (20 if ctx.deep else 5))
+    bins = ctx.bins(("debug", "release"))
+    allh = os.path.join(ctx.wd, "histories.ndjson")
+    open(allh, "w").close()
+    for fam in ("T2", "T3"):
+        h = ctx.mc("MC_C17", env={"VERIF_FAMILY": fam}, tag="MC_C17_" + fam)
+        ctx.mc("MC_C17", cfg="MC_C17_live", env={"VERIF_FAMILY": fam}, tag="MC_C17_live_" + fam, export=False)
+        with open(allh, "a") as f:
+            f.write(open(h).read())
+    for prof in ("debug", "release"):
+        outp = os.path.join(ctx.wd, "hist-%s.out" % prof)
+        ev = os.path.join(ctx.wd, "hist-events-%s.ndjson" % prof)
+        so = os.path.join(ctx.wd, "hist-stdout-%s.txt" % prof)
+        with open(so, "wb") as sof:
+            import subprocess
+            p = subprocess.run([bins[prof], "hist", allh, outp, "--events", ev, "--seed", str(ctx.seed), "--reps", "20" if ctx.deep else "5"], stdout=sof, stderr=subprocess.PIPE)
+        if p.returncode != 0:
+            raise ToolError("harness hist failed: " + p.stderr.decode()[-2000:])
+        summary, mism = None, []
+        for line in open(outp):
+            r = json.loads(line)
+            if r.get("summary"):
+                summary = r
+            else:
+                mism.append(r)
+        for r in mism:
+            r["profile"] = prof
+            ctx.verdicts.add(r, "histories/" + prof)
+        ctx.evaluations += summary["cases"]
+        ctx.validated += summary["matched"]
+        for smp in summary.get("samples", []):
+            if len(ctx.samples) < 6:
+                ctx.samples.append(smp)
+        # standard output: exactly one whole line per evaluated log, each line the JSON text of a value
+        lines = open(so, "rb").read().split(b"\n")
+        if lines and lines[-1] == b"":
+            lines.pop()
+        badlines = 0
+        for ln in lines:
+            try:
+                json.loads(ln.decode("utf-8"))
+            except Exception:
+                badlines += 1
+        if len(lines) != summary["expected_log_lines"] or badlines:
+            ctx.verdicts.add({"kind": "mismatch", "why": "stdout of the threaded run has %d lines (%d not valid JSON), the specification expects %d whole lines" % (len(lines), badlines, summary["expected_log_lines"]),
+                              "sc": ["C17"], "rule": "(all histories)", "data": "", "expected": summary["expected_log_lines"], "actual": len(lines), "profile": prof}, "histories-stdout/" + prof)
+        log("  histories [%s]: %d histories, %d calls on real threads, %d agree, %d mismatch; stdout %d whole lines (expected %d)" % (
+            prof, summary["histories"], summary["cases"], summary["matched"], summary["mismatched"], len(lines), summary["expected_log_lines"]))
+        ctx.notes.setdefault("histories", []).append({"profile": prof, "histories": summary["histories"], "calls": summary["cases"], "stdout_lines": len(lines)})
+        if prof == "debug":
+            ctx.validate_events(ev, "histories-" + prof)
+    ctx.nontrivial.update(("hist", i) for i in range(summary["histories"]))
+    ctx.machine("C04", live=False, profiles=("debug",))
+    ctx.assumptions.append("instruction-level data races are not enumerated: the atomic step of the Calls model (one whole log line) is justified by apply taking &Value, "
+                           "the crate having no statics, interior mutability or unsafe code; real threads are exercised but schedules are sampled")
+
+
 PLANS = {
+    "C17": plan_C17,
     "C04": plan_C04,
     "C05": plan_C05,
     "C15": plan_C15,
